@@ -22,6 +22,9 @@ LAYERS: Dict[str, Dict[str, Any]] = {
     # precedence, associativity, parentheses, unary minus, ** chains, conditionals
     'shape3': dict(MaxStmts=1, MaxLeaves=3, MaxNodes=6, MaxNames=2, Kinds='VOnly', Idxs='ShapeIdxs', LhsIdxs='Lhs0', Nums='NoStr',
                    BinOps='ShapeOps', CmpOps='LtOnly', Funcs1='NoStr', Funcs2='MaxOnly', UseNeg='TRUE', UseParen='TRUE', UseCond='TRUE'),
+    # verbatim fragments between backticks (copied into the code untouched, inner blanks and quotes included)
+    'verb': dict(MaxStmts=1, MaxLeaves=2, MaxNodes=3, MaxNames=2, Kinds='VOnly', Idxs='ShapeIdxs', LhsIdxs='Lhs0', Nums='NoStr', Verbs='VerbSet',
+                 BinOps='PlusOnly', CmpOps='NoStr', Funcs1='NoStr', Funcs2='MaxOnly', UseNeg='TRUE', UseParen='TRUE', UseCond='FALSE'),
     # boolean keywords (and / or / not) around comparisons
     'bool': dict(MaxStmts=1, MaxLeaves=3, MaxNodes=6, MaxNames=2, Kinds='VOnly', Idxs='Lhs0', LhsIdxs='Lhs0', Nums='NoStr',
                  BinOps='PlusOnly', CmpOps='LtOnly', Funcs1='NoStr', Funcs2='NoStr', UseNeg='FALSE', UseParen='FALSE', UseCond='TRUE',
@@ -67,6 +70,7 @@ def layer_cfg(layer: str, invariants: Sequence[str], emit: bool = True) -> str:
     for k in ('Kinds', 'Idxs', 'LhsIdxs', 'Nums', 'BinOps', 'CmpOps', 'Funcs1', 'Funcs2'):
         lines.append(f'  {k} <- {c[k]}')
     lines.append(f"  BoolOps <- {c.get('BoolOps', 'NoStr')}")
+    lines.append(f"  Verbs <- {c.get('Verbs', 'NoStr')}")
     lines.append(f"  UseNot = {c.get('UseNot', 'FALSE')}")
     lines.append(f"  NoReject = {c.get('NoReject', 'FALSE')}")
     for k in ('UseNeg', 'UseParen', 'UseCond'):
@@ -79,7 +83,7 @@ def layer_cfg(layer: str, invariants: Sequence[str], emit: bool = True) -> str:
     return '\n'.join(lines) + '\n'
 
 
-SMALL_LAYERS = {'bool': 8, 'term': 2, 'merge2_small': 4, 'shape3_small': 8, 'fortran_small': 8, 'pair_small': 8, 'merge3': 8, 'merge2': 8}
+SMALL_LAYERS = {'verb': 2, 'bool': 8, 'term': 2, 'merge2_small': 4, 'shape3_small': 8, 'fortran_small': 8, 'pair_small': 8, 'merge3': 8, 'merge2': 8}
 
 
 def emit_layer(ctx: core.Ctx, layer: str, *, timeout: int = 3600) -> List[Dict[str, Any]]:
@@ -184,7 +188,7 @@ def judge_programs(ctx: core.Ctx, programs: List[List[Dict[str, Any]]], tag: str
     path.write_text(json.dumps(programs))
     cfg = ['INIT JInit', 'NEXT JNext', 'CONSTANTS', '  MaxStmts = 40', '  MaxLeaves = 40', '  MaxNodes = 200', '  MaxNames = 40',
            '  Kinds <- AllKinds', '  Idxs <- TermIdxs', '  LhsIdxs <- Lhs01', '  Nums <- NoStr', '  BinOps <- NoStr', '  CmpOps <- NoStr',
-           '  BoolOps <- NoStr', '  Funcs1 <- NoStr', '  Funcs2 <- NoStr', '  UseNeg = FALSE', '  UseParen = FALSE', '  UseCond = FALSE',
+           '  BoolOps <- NoStr', '  Verbs <- NoStr', '  Funcs1 <- NoStr', '  Funcs2 <- NoStr', '  UseNeg = FALSE', '  UseParen = FALSE', '  UseCond = FALSE',
            '  UseNot = FALSE', '  NoReject = FALSE', '  Shard = {shard}', '  NShards = {nshards}']
     cfg += [f'INVARIANT {i}' for i in invariants if i != 'TypeOK'] + ['INVARIANT JTypeOK', 'INVARIANT EmitInv', 'CHECK_DEADLOCK FALSE']
     results = core.run_sharded('ScriptJudge', '\n'.join(cfg) + '\n', core.NCPU, tag=f'{ctx.prop}-judge-{tag}', heap='2g',
